@@ -429,3 +429,73 @@ func Harness_C01_seq_grp1_fault() { harnessC01(verifPubCfg{kind: verifKindGrp, n
 func Harness_C01_seq_grp()       { harnessC01(verifPubCfg{kind: verifKindGrp, nUsers: 2}) }
 func Harness_C01_seq_grp_fault() { harnessC01(verifPubCfg{kind: verifKindGrp, nUsers: 2, faults: true}) }
 func Harness_C01_seq_p2p_fault() { harnessC01(verifPubCfg{kind: verifKindP2P, nUsers: 2, faults: true}) }
+
+// ---- C01: the number acknowledged to the publisher is the number a later description query shows, and the
+// publisher's own marks have jumped to it (C09: "a mark moves when its user publishes"). Lean world: only the
+// author's modes, marks and the topic counter are symbolic.
+func harnessC01Desc(kind int) {
+	fx := verifNewTopic(kind, 2)
+	t := fx.topic
+	t.lastID = verifSeq("lastID")
+	author := fx.uids[1]
+	pud := t.perUser[author]
+	// only the R and W bits matter here (the description renders the modes as text, which forks per symbolic bit)
+	rw := types.ModeRead | types.ModeWrite
+	pud.modeWant = types.ModeCPublic&^rw | verifMode("want")&rw
+	pud.modeGiven = types.ModeCPublic&^rw | verifMode("given")&rw
+	if kind == verifKindP2P {
+		pud.modeWant, pud.modeGiven = pud.modeWant&types.ModeCP2P|types.ModeApprove, pud.modeGiven&types.ModeCP2P|types.ModeApprove
+	}
+	pud.readID, pud.recvID = verifSeq("read"), verifSeq("recv")
+	verifAssume(pud.readID <= pud.recvID && pud.recvID <= t.lastID)
+	t.perUser[author] = pud
+	sub := fx.store.subs[verifSubKey(t.name, author)]
+	sub.ReadSeqId, sub.RecvSeqId, sub.ModeWant, sub.ModeGiven = pud.readID, pud.recvID, pud.modeWant, pud.modeGiven
+	fx.store.topics[t.name].SeqId = t.lastID
+	for _, u := range fx.uids {
+		fx.store.users[u] = &types.User{State: types.StateOK, Access: types.DefaultAccess{Auth: types.ModeCAuth}}
+	}
+	sess := verifNewSession("sid-a", author, auth.LevelAuth, 32)
+	fx.attach(sess, author, false)
+	name := t.original(author)
+	pub := &ClientComMessage{Id: "p1", AsUser: author.UserId(), AuthLvl: int(auth.LevelAuth), Original: name, RcptTo: t.name,
+		Timestamp: types.TimeNow(), sess: sess, init: true, Pub: &MsgClientPub{Id: "p1", Topic: name, Content: "x"}}
+	t.handlePubBroadcast(pub)
+	ack := 0
+	for _, r := range verifDrainSend(sess) {
+		if r != nil && r.Ctrl != nil && r.Ctrl.Code == 202 {
+			if p, ok := r.Ctrl.Params.(map[string]any); ok {
+				ack, _ = p["seq"].(int)
+			}
+		}
+	}
+	writer := (pud.modeWant & pud.modeGiven).IsWriter()
+	verifAssert((ack != 0) == writer, "accepted-iff-writer")
+	get := &ClientComMessage{Id: "g1", AsUser: author.UserId(), AuthLvl: int(auth.LevelAuth), Original: name, RcptTo: t.name,
+		Timestamp: types.TimeNow(), sess: sess, init: true, MetaWhat: constMsgMetaDesc,
+		Get: &MsgClientGet{Id: "g1", Topic: name, MsgGetQuery: MsgGetQuery{What: "desc"}}}
+	t.handleMeta(get)
+	reader := (pud.modeWant & pud.modeGiven).IsReader()
+	found := false
+	for _, r := range verifDrainSend(sess) {
+		if r == nil || r.Meta == nil || r.Meta.Desc == nil {
+			continue
+		}
+		found = true
+		d := r.Meta.Desc
+		switch {
+		case reader && ack != 0:
+			verifAssert(d.SeqId == ack, "description-shows-the-acknowledged-number")
+			verifAssert(d.ReadSeqId == ack && d.RecvSeqId == ack, "publishers-marks-jump-to-its-own-message")
+		case reader:
+			verifAssert(d.SeqId == t.lastID && d.ReadSeqId == pud.readID && d.RecvSeqId == pud.recvID, "description-unchanged-after-refused-publish")
+		default:
+			verifAssert(d.SeqId == 0 && d.ReadSeqId == 0 && d.RecvSeqId == 0, "counters-hidden-without-read-permission")
+		}
+	}
+	verifAssert(found, "description-query-answered")
+	verifReach("end")
+}
+
+func Harness_C01_desc_grp() { harnessC01Desc(verifKindGrp) }
+func Harness_C01_desc_p2p() { harnessC01Desc(verifKindP2P) }
